@@ -212,6 +212,26 @@ func init() {
 		killSelf()
 		return nil
 	}
+	// quiesce: wait until the background flusher has nothing left to write
+	// (no dirty page in the cache on two looks 120 ms apart), so that an abrupt
+	// end of the process right afterwards cannot land inside a page flush.
+	ops["quiesce"] = func(op *proto.Op, res *proto.Res) error {
+		if sess.RelationService == nil {
+			return nil
+		}
+		clean := 0
+		for i := 0; i < 50 && clean < 2; i++ {
+			_, dirty := storage.VerifCacheKeys(sess.RelationService)
+			if dirty == 0 {
+				clean++
+			} else {
+				clean = 0
+			}
+			time.Sleep(120 * time.Millisecond)
+		}
+		res.N = int64(clean)
+		return nil
+	}
 	ops["showdb"] = func(op *proto.Op, res *proto.Res) error {
 		rows, _, err := engine.EvaluateShowDatabase(sql.ShowDatabase{})
 		if err != nil {
